@@ -28,7 +28,7 @@ MD5_BASIC = ['correct', 'wrong', 'missing']
 MD5_KINDS = ['correct', 'correct', 'wrong', 'missing', 'conn_error', 'empty', 'with_filename',
              'wrong_truncated']
 PRIORS = ['absent', 'valid', 'corrupt']
-HEAD_KINDS = ['fail', 'length', 'zero', 'wrong_length']
+HEAD_KINDS = ['fail', 'length', 'zero', 'wrong_length', 'http405']
 
 COMPONENTS = {
     'real': ['phylib.io.datasets.download_file, _download, _save_stream, _check_md5_of_url, _md5',
@@ -327,6 +327,9 @@ class Server(object):
         self.requests.append(('HEAD', 'data', kind))
         if kind == 'fail':
             raise SimConnectionError('HEAD failed')
+        if kind == 'http405':
+            # a server that does not implement HEAD
+            return Response(url, status=405, text='Method Not Allowed')
         n = {'length': len(self.good), 'zero': 0, 'wrong_length': len(self.good) // 3 + 1}[kind]
         return Response(url, headers={'content-length': str(n)})
 
